@@ -452,7 +452,43 @@ def directed(tier):
        tref_mode='last', window='full')                                          # (c)
     mk(cls='Nasa9', ctor='from_data', src='statmech_ads', nseg=3, T_mid_mode='list', tref_mode='high')
     mk(cls='Nasa9', ctor='from_data', src='poly', nseg=3, T_mid_mode='list', tref_mode='last')
+    # (d) lowest data temperature excluded from the first NASA-9 interval
+    mk(cls='Nasa9', ctor='from_model', src='statmech_gas', nseg=1, T_mid_mode='list', fit_T_mid=False,
+       window='full', n_T=15)
+    mk(cls='Nasa9', ctor='from_data', src='statmech_ads', nseg=2, T_mid_mode='list', window='full',
+       n_T=18, gridkind='lin', shuffle=False, tref_mode='first')
+    # (e) Shomate Levenberg-Marquardt fit on a narrow high-temperature window: does not converge /
+    # stops 1e-3 short of the least-squares optimum / same-family data not reproduced
+    D.append({"cls": "Shomate", "ctor": "from_data", "T_low": 2564.75, "T_high": 2664.75, "n_T": 113,
+              "grid": {"kind": "lin", "seed": 142791, "shuffle": True}, "units": "eV/K", "T_ref": 2654.315,
+              "source": {"kind": "statmech_ads", "spec": {
+                  "trans": None, "vib": {"type": "HarmonicVib", "vib_wavenumbers": [
+                      14.797, -109.942, 1515.52, 19.9233, -807.098, 2858.67, 1601.56, 103.51, 239.665,
+                      607.225, 795.122, 1712.95], "imaginary_substitute": None},
+                  "rot": None, "elec": {"type": "GroundStateElec", "potentialenergy": -16.08726, "spin": 1.5},
+                  "nucl": None, "type": "StatMech", "name": "src", "elements": {"Ni": 1, "Pt": 3, "He": 7}}}})
+    D.append({"cls": "Shomate", "ctor": "from_data", "T_low": 2673.4, "T_high": 2773.4, "n_T": 50,
+              "grid": {"kind": "geom", "seed": 812362}, "units": "Eh/K", "T_ref": 2736.652,
+              "source": {"kind": "statmech_ads", "spec": {
+                  "trans": None, "vib": {"type": "HarmonicVib", "vib_wavenumbers": [
+                      20.7913, 203.148, 199.453, 2946.31, 56.8868, 734.685, -29.1487],
+                      "imaginary_substitute": 41.68},
+                  "rot": None, "elec": {"type": "GroundStateElec", "potentialenergy": -14.38452, "spin": 0},
+                  "nucl": None, "type": "StatMech", "name": "src", "elements": {"Ni": 8, "S": 5, "O": 5}}}})
+    D.append({"cls": "Shomate", "ctor": "from_model", "T_low": 2818.68, "T_high": 2918.68, "n_T": 15,
+              "units": "m3 bar/mol/K",
+              "source": {"kind": "poly", "family": "shomate", "units": "L atm/mol/K",
+                         "a": [-1.02028186791, -1.01480335453, 0.222523885599, 0.00394835935928,
+                               22.900685381, -36.4752249982, 10.4748599378, 0.0]}})
+    # (f) Nelder-Mead search of NASA-9 breaks leaves the breaks unordered -> empty interval
+    D.append({"cls": "Nasa9", "ctor": "from_model", "T_low": 2469.11, "T_high": 2743.55, "n_T": 30,
+              "fit_T_mid": True, "n_interval": 3, "T_mid": None,
+              "source": {"kind": "poly", "family": "nasa9",
+                         "a": [-41756.8992547, 3963.11338981, 1.38860787306, -0.000758419394112,
+                               4.25376165802e-07, -1.09855678075e-10, -4.78884998982e-14,
+                               -27721.94049, -9.301434639]}})
     # --- T_mid None / scalar for NASA-9
+    mk(cls='Nasa9', ctor='from_data', src='zero', T_mid_mode='None', nseg=1)
     mk(cls='Nasa9', ctor='from_data', src='statmech_gas', T_mid_mode='None', nseg=1)
     mk(cls='Nasa9', ctor='from_data', src='poly', T_mid_mode='scalar', nseg=2)
     mk(cls='Nasa9', ctor='from_model', src='statmech_ads', T_mid_mode='None', nseg=2, fit_T_mid=False)
